@@ -153,8 +153,10 @@ class Ctx:
             results = [one(c) for c in chunks]
         for start, chunk, control_at, acc, prog, res in results:
             if res.violated:
-                # an invariant of the specification failed on a recorded trace
-                self.notes.setdefault("trace_invariant_violations", []).append(res.violated)
+                # an invariant of the specification failed on a recorded trace (that trace is not accepted)
+                self.notes.setdefault("trace_invariant_violations", []).append(
+                    {"invariants": sorted(set(res.violated)),
+                     "traces": {start + k - 1: v for k, v in getattr(res, "invariant_tids", {}).items() if k <= len(chunk)}})
             if control_at is not None:
                 if control_at in acc:
                     raise MachineryError(f"negative control accepted by {module} ({label})")
